@@ -68,6 +68,7 @@ type Path struct {
 	curFn    []*ssa.Function
 	gwrites  []string
 	decStr   map[string]*Term // rt string input name -> its parsed 18-decimal raw value term
+	crashSite string          // innermost function at the time of the last throw (diagnostics)
 	stress   *Term            // see unmodelled
 	printed  *Term            // what the code under test printed through client.Context.PrintString
 	pending  []decision // alternatives discovered on this path (pushed by explorer)
@@ -316,6 +317,9 @@ func (p *Path) callFunction(fn *ssa.Function, args []Value, bindings []Value) (r
 		p.depth--
 		p.curFn = p.curFn[:len(p.curFn)-1]
 		if r := recover(); r != nil {
+			if p.crashSite == "" {
+				p.crashSite = name // innermost function on the stack when something was thrown
+			}
 			if gp, ok := r.(goPanic); ok && len(fr.defers) > 0 {
 				// run deferred calls while panicking
 				ds := fr.defers
